@@ -469,8 +469,13 @@ void HttpRequest::read()
 	{
 		if ((Long)header("Content-Length") < 128000000)
 			*_socket << "HTTP/1.1 100 Continue\r\n\r\n";
-		else
-			*_socket << "HTTP/1.1 417 Too big\r\n\r\n";
+		else // the request is refused: this is its only response, the body is not awaited and nothing is dispatched
+		{
+			*_socket << "HTTP/1.1 417 Too big\r\nContent-Length: 0\r\nConnection: close\r\n\r\n";
+			_socket->close();
+			_method = "";
+			return;
+		}
 	}
 
 	readBody();
